@@ -11,10 +11,11 @@ meta = json.load(open(os.path.join(src, "meta.json")))
 demos = glob.glob(os.path.join(src, "demo", "*_test.go"))
 if not demos:
     print("no demo test file"); sys.exit(2)
-pkgdir = meta.get("demo_package_dir") or meta.get("demo_dir") or meta.get("demo_package")
-if not pkgdir:
-    m = re.search(r"cp \S+ (\S+)/[A-Za-z0-9_]+_test\.go", meta.get("demo_cmd", ""))
-    pkgdir = m.group(1) if m else None
+godirs = sorted({os.path.dirname(f) for f in subprocess.run(["git", "-C", "/repo", "ls-files", "*.go"], capture_output=True, text=True).stdout.split()}, key=len, reverse=True)
+pkgdir = meta.get("demo_package_dir") or meta.get("demo_dir") or meta.get("demo_package") or ""
+if pkgdir.strip("./") not in godirs:
+    text = json.dumps(meta)
+    pkgdir = next((d for d in godirs if d and re.search(r"(?<![A-Za-z0-9_/])(\./)?" + re.escape(d) + r"/", text)), None)
 if not pkgdir:
     print("cannot determine demo package dir"); sys.exit(2)
 pkgdir = pkgdir.strip("./")
